@@ -368,6 +368,22 @@ class Ctx:
         """Leg M.  expect_violation: name of an invariant that MUST be violated
         (a spec-mutation / vacuity guard) -- anything else is a machinery failure."""
         kw.setdefault("coverage", bool(must_cover))
+        if expect_violation is not None:
+            # a mutation config may list several invariants; with several workers TLC reports whichever is
+            # violated first.  Check ONLY the expected one so that the outcome is deterministic.
+            keep, found = [], False
+            for line in (SPEC / cfg).read_text().splitlines():
+                m = re.match(r"\s*(INVARIANTS?|PROPERTY|PROPERTIES)\s+(.*)$", line)
+                if not m:
+                    keep.append(line)
+                elif expect_violation in m.group(2).split():
+                    keep.append(f"{m.group(1)} {expect_violation}")
+                    found = True
+            if not found:
+                raise Machinery(f"{cfg} does not list {expect_violation}")
+            only = self.work / (Path(cfg).stem + "_only.cfg")
+            only.write_text("\n".join(keep) + "\n")
+            cfg = str(only)
         r = run_tlc(module, cfg, workdir=self.work, **kw)
         self.mc_runs.append(
             dict(module=module, cfg=cfg, generated=r.generated, distinct=r.distinct,
